@@ -21,6 +21,8 @@ type vxConn struct {
 	closeErr error
 	reads    int
 	unblock  chan struct{}
+	script   [][]byte // datagrams handed to the reader, one per Read
+	after    func()   // called by the Read that finds the script exhausted (e.g. observe, then Close)
 }
 
 func newVxConn() *vxConn { return &vxConn{unblock: make(chan struct{})} }
@@ -40,6 +42,16 @@ func (c *vxConn) Write(p []byte) (int, error) {
 // goroutine sits here; responses are delivered by the harness as events).
 func (c *vxConn) Read(p []byte) (int, error) {
 	c.reads++
+	if len(c.script) > 0 {
+		d := c.script[0]
+		c.script = c.script[1:]
+		return copy(p, d), nil
+	}
+	if c.after != nil {
+		f := c.after
+		c.after = nil
+		f()
+	}
 	<-c.unblock
 	return 0, io.EOF
 }
@@ -60,6 +72,7 @@ type vxCollector struct {
 	f       func(time.Time)
 	started int
 	closed  int
+	onClose func() // runs inside Close (another caller overlapping at this point)
 }
 
 func (c *vxCollector) Start(rate time.Duration, f func(now time.Time)) error {
@@ -70,6 +83,11 @@ func (c *vxCollector) Start(rate time.Duration, f func(now time.Time)) error {
 
 func (c *vxCollector) Close() error { // precondition of C15: the collector's Close succeeds
 	c.closed++
+	if c.onClose != nil {
+		f := c.onClose
+		c.onClose = nil
+		f()
+	}
 	return nil
 }
 
